@@ -8,9 +8,9 @@ from pyvc.driver import Extra
 
 ID = "C14"
 LEVEL = "exploration"
-SIDECARS = ["contracts.rates"]
+SIDECARS = ["contracts.rates", "contracts.arch"]
 TARGETS = ["Hardware.get_config", "Hardware.get_frequency", "Component.__init__", "Component.get_num_instances",
-           "MemoryComponent.get_bandwidth"]
+           "MemoryComponent.get_bandwidth", "Architecture.__init__"]
 TECHNIQUE = ("contracts on the rate getters (clock of the Einsum's own configuration, declared bandwidth, declared instance count: SMT) + site contracts on the five time sites (structural, from the AST) + bounded run-time check of the roll-up "
              "contract on the real Collector.__build_time and of instance counts on the real Architecture/Hardware")
 EXPLANATION = (
@@ -231,11 +231,13 @@ def _check_instances():
     """instance counts from level names on the real Architecture parser and Hardware"""
     from teaal.parse import Architecture
     ev, fails = 0, []
-    for n in [None] + list(range(0, 13)):
-        name = "PE" if n is None else "PE[0..%d]" % n
+    cases = [(None, "PE")] + [(n, "PE[0..%d]" % n) for n in range(0, 13)]
+    # spellings with the inline whitespace the level grammar ignores
+    cases += [(7, "PE [0..7]"), (7, "PE[0.. 7]"), (7, "PE[0..7 ]"), (3, "PE  [0..3]"), (None, "PE ")]
+    for n, name in cases:
         y = ("architecture:\n  c:\n  - name: System\n    attributes:\n      clock_frequency: 10\n    subtree:\n"
              "    - name: %s\n      local:\n      - name: ALU\n        class: compute\n        attributes:\n          type: mul\n"
-             "      subtree:\n      - name: Lane[0..%d]\n" % (name, 2 if n is None else n))
+             "      subtree:\n      - name: Lane[0..%d]\n" % ('"%s"' % name, 2 if n is None else n))
         spec = Architecture.from_str(y).get_spec()
         lvl = spec["architecture"]["c"][0]["subtree"][0]
         want = 1 if n is None else n + 1
@@ -275,16 +277,127 @@ def _check_corpus():
     return ev, fails, samples
 
 
+_TWO_CFG = """
+einsum:
+  declaration:
+    A: [K, M]
+    T: [K, M]
+    Z: [K, M]
+  expressions:
+  - T[k, m] = A[k, m]
+  - Z[k, m] = T[k, m]
+mapping:
+  loop-order:
+    T: [K, M]
+    Z: [K, M]
+  spacetime:
+    T:
+      space: []
+      time: [K, M]
+    Z:
+      space: []
+      time: [K, M]
+format:
+  Z:
+    default:
+      rank-order: [K, M]
+      K:
+        format: C
+      M:
+        format: C
+        pbits: 32
+architecture:
+  cfgA:
+  - name: System
+    attributes:
+      clock_frequency: %(fa)d
+    subtree:
+    - name: %(la)s
+      local:
+      - name: %(na)s
+        class: compute
+        attributes:
+          type: add
+  cfgB:
+  - name: System
+    attributes:
+      clock_frequency: %(fb)d
+    subtree:
+    - name: %(lb)s
+      local:
+      - name: %(nb)s
+        class: compute
+        attributes:
+          type: add
+bindings:
+  T:
+  - config: cfgA
+    prefix: tmp/T
+  - component: %(na)s
+    bindings:
+    - op: add
+  Z:
+  - config: %(cz)s
+    prefix: tmp/Z
+  - component: %(nz)s
+    bindings:
+    - op: add
+"""
+
+
+def _check_divisors():
+    """each component time divides by clock x instances OF THE CONFIGURATION THE EINSUM RUNS ON: two Einsums, two
+    configurations whose compute unit sits under levels of different multiplicity (and clock), with the same or with
+    different component names; the expected divisor is computed from the parameters alone"""
+    import re
+    from teaal.parse import Einsum, Mapping, Architecture, Bindings, Format
+    from teaal.trans.hifiber import HiFiber
+    ev, fails = 0, []
+    for (ia, ib) in ((3, 7), (7, 3), (None, 4), (2, None), (5, 5)):
+        for fa, fb in ((1000, 1000), (1000, 3000)):
+            for same_name in (True, False):
+                for cz in ("cfgB", "cfgA"):
+                    na, nb = ("ALU", "ALU") if same_name else ("ALU0", "ALU1")
+                    nz = nb if cz == "cfgB" else na
+                    la = "PE" if ia is None else "PE[0..%d]" % ia
+                    lb = "PE" if ib is None else "PE[0..%d]" % ib
+                    y = _TWO_CFG % dict(fa=fa, fb=fb, la=la, lb=lb, na=na, nb=nb, cz=cz, nz=nz)
+                    try:
+                        text = str(HiFiber(Einsum.from_str(y), Mapping.from_str(y), Architecture.from_str(y),
+                                           Bindings.from_str(y), Format.from_str(y)))
+                    except Exception:      # noqa
+                        continue
+                    ev += 1
+                    cnt = {"cfgA": 1 if ia is None else ia + 1, "cfgB": 1 if ib is None else ib + 1}
+                    clk = {"cfgA": fa, "cfgB": fb}
+                    want = {"T": clk["cfgA"] * cnt["cfgA"], "Z": clk[cz] * cnt[cz]}
+                    for e_, comp in (("T", na), ("Z", nz)):
+                        m = re.search(r'^metrics\["%s"\]\["%s"\]\["time"\] = .* / (\d+)$' % (e_, comp), text, flags=re.M)
+                        got = int(m.group(1)) if m else None
+                        if got != want[e_]:
+                            same = "; cause=one-component-name-in-two-configurations" if same_name and cnt["cfgA"] * fa != cnt["cfgB"] * fb else ""
+                            fails.append({"name": "bounded/divisor-of-the-einsums-own-configuration",
+                                          "detail": "Einsum %s runs on %s (%s at %d Hz: divisor %d) but its %s time divides by %r%s"
+                                                    % (e_, "cfgA" if e_ == "T" else cz, la if e_ == "T" or cz == "cfgA" else lb,
+                                                       clk["cfgA" if e_ == "T" else cz], want[e_], comp, got, same),
+                                          "witness": {"yaml": y, "einsum": e_, "expected_divisor": want[e_], "emitted_divisor": got}})
+    return ev, fails[:6]
+
+
 def bounded(uni, tier, seed):
     e1, d1, f1, s1 = _check_rollup(tier, seed)
     e2, f2 = _check_instances()
     e3, f3, s3 = _check_corpus()
+    e4, f4 = _check_divisors()
+    e3, f3 = e3 + e4, f3 + f4
     return {"evaluations": e1 + e2 + e3, "distinct_nontrivial": d1, "failures": f1 + f2 + f3, "samples": s1 + s3,
             "exhaustive": tier == "thorough",
             "rule": "real Collector.__build_time on every contiguous block structure of <= 4 Einsums x component lists "
                     "from 7 patterns (quick: every 7th), its expression tree evaluated with distinct prime component "
                     "times against an independent sum-of-max; level names NAME / NAME[0..N], N <= 12, through the real "
-                    "Architecture parser; assigned-vs-used component times in the metrics dump of the accelerator specs"}
+                    "Architecture parser (also spelled with inline whitespace); assigned-vs-used component times in the metrics "
+                    "dump of the accelerator specs; divisors = clock x instances of the Einsum's own configuration over "
+                    "two-configuration specifications (same / different component names, multiplicities, clocks)"}
 
 
 def refute_extra(uni, e):
